@@ -15,6 +15,7 @@ MODEL_PATHS = {
     'std::collections::HashMap': 'HashMap',
     'std::collections::HashSet': 'HashSet',
     'std::collections::hash_set::Iter': 'Iter',
+    'std::sync::RwLock': 'RwLock',
 }
 
 def _split_top(s):
